@@ -329,7 +329,11 @@ def archive_dir(src: pathlib.Path, dest: pathlib.Path,
         dest: path pointing to a zip file
     """
     src = src.resolve()
-    for d, _, files in os.walk(src):
+
+    def raise_error(e):     # os.walk ignores listing errors by default
+        raise e
+
+    for d, _, files in os.walk(src, onerror=raise_error):
         for f in files:
             srcfile = pathlib.Path(os.path.join(d, f))
             rel = srcfile.relative_to(src)
